@@ -3,13 +3,428 @@
 Decides: context args in the hash input but not in the body call (R1); inherit iff unset, replace
 never merge (R2); the frame carries the updated context (R3); the prevent-flag raise dominates the
 dispatch (R4); sibling reference constructions agree (R5).
+
+The clauses are decided on meanings, not spellings: objects are followed through aliases to the
+definition that created them (`origin`), guards are read off the path conditions (`FA.conditions`)
+and evaluated, private helpers of a constructor are flattened into it before it is looked at
+(`flat_method`), reads of an `InvocationContext` are simplified through `update_recursive` /
+`update_local` chains (`ctx_text`).
 """
 import ast
+import copy
 
 from .. import astutil as A
 from ..fa import FA
+from ..loader import AnalysisError, FuncInfo
 
 RESERVED = "_memento_context_args"
+FRA = "reference.FunctionReferenceWithArguments"
+FRAME = "CallStack.get().get_calling_frame()"
+
+
+# ------------------------------------------------------------------------------------------------
+# helpers shared with c04.py
+# ------------------------------------------------------------------------------------------------
+def strip_cast(e):
+    while isinstance(e, ast.Call) and A.call_attr(e) == "cast" and len(e.args) == 2 and not e.keywords:
+        e = e.args[1]
+    return e
+
+
+def _blocks(node):
+    for fld in ("body", "orelse", "finalbody"):
+        b = getattr(node, fld, None)
+        if isinstance(b, list) and b and isinstance(b[0], ast.stmt):
+            yield b
+    for h in getattr(node, "handlers", []) or []:
+        yield h.body
+
+
+def _split_tuple_assigns(fn):
+    """`self.a, self.b = x, y` -> `self.a = x; self.b = y` (no value reads a target)."""
+    for n in ast.walk(fn):
+        for b in _blocks(n):
+            out = []
+            for s in b:
+                if isinstance(s, ast.Assign) and len(s.targets) == 1 and isinstance(s.targets[0], ast.Tuple) and isinstance(s.value, ast.Tuple) \
+                        and len(s.targets[0].elts) == len(s.value.elts) \
+                        and all(isinstance(t, (ast.Name, ast.Attribute)) for t in s.targets[0].elts) \
+                        and all(isinstance(v, (ast.Name, ast.Attribute, ast.Constant)) for v in s.value.elts):
+                    tn = {A.norm(t) for t in s.targets[0].elts}
+                    if not any(A.norm(x) in tn for v in s.value.elts for x in ast.walk(v) if isinstance(x, (ast.Name, ast.Attribute))):
+                        for t, v in zip(s.targets[0].elts, s.value.elts):
+                            out.append(ast.copy_location(ast.Assign(targets=[t], value=v), s))
+                        continue
+                out.append(s)
+            b[:] = out
+
+
+def flat_method(ck, qual) -> FA:
+    """FA of a copy of method `qual` in which the calls `self._helper(...)` to private methods of its own
+    class are inlined (recursively): whether a constructor computes a field in place, through one helper,
+    through two, or through one helper that returns a pair, the rules see the same straight-line code."""
+    from ..inline import Inliner, _all_names
+    fi = ck.fn(qual)
+    if fi.cls is None:
+        return FA(ck, fi)
+    host = fi.node
+
+    class SelfInliner(Inliner):
+        def resolve(self, call, f_):
+            r = Inliner.resolve(self, call, f_)
+            if r is not None:
+                return r
+            f = call.func
+            if isinstance(f, ast.Attribute) and isinstance(f.value, ast.Name) and f.value.id == "self" \
+                    and f.attr.startswith("_") and not f.attr.endswith("__"):
+                cal = self.repo.find_method(fi.cls, f.attr)
+                if cal is not None and cal.cls is not None and cal.node is not host and not cal.is_static and not cal.is_classmethod \
+                        and not any(f.attr in c.methods for c in self.repo.subclasses(fi.cls)):
+                    return cal, f.value
+            return None
+
+    node = copy.deepcopy(host)
+    try:
+        inl = SelfInliner(ck.repo)
+        inl.rewrite_block_owner(node, fi, _all_names(node), 0)
+    except RecursionError:
+        node = copy.deepcopy(host)
+    _split_tuple_assigns(node)
+    ast.fix_missing_locations(node)
+    nfi = FuncInfo(fi.module, node, fi.qual, cls=fi.cls, parent=fi.parent)
+    return FA(ck, nfi)
+
+
+def _ref_name(e):
+    """'x' for a local, 'self.f' for a field of self, None otherwise."""
+    if isinstance(e, ast.Name):
+        return e.id
+    if isinstance(e, ast.Attribute) and isinstance(e.value, ast.Name) and e.value.id == "self":
+        return "self." + e.attr
+    return None
+
+
+def single_def(fa, name, at):
+    ds = fa.df.reaching(at, name)
+    if len(ds) == 1 and ds[0].kind == "assign" and ds[0].value is not None:
+        return ds[0]
+    return None
+
+
+def origin(fa, expr, at, _seen=frozenset()):
+    """The definition that created the object `expr` denotes at CFG node `at`: plain aliases (locals and
+    fields of self, casts) are followed back; several reaching assignments are fine as long as they all lead
+    to the same creating definition.  None if `expr` is not such a name."""
+    nm = _ref_name(strip_cast(expr))
+    if nm is None:
+        return None
+    ds = fa.df.reaching(at, nm)
+    if not ds or any(d.kind != "assign" or d.value is None for d in ds):
+        return None
+    res = []
+    for d in ds:
+        if (d.node, d.name) in _seen:
+            return None
+        o = origin(fa, d.value, d.node, _seen | {(d.node, d.name)})
+        res.append(o if o is not None else d)
+    return res[0] if all((r.node, r.name) == (res[0].node, res[0].name) for r in res) else None
+
+
+def same_def(a, b):
+    return a is not None and b is not None and (a.node, a.name) == (b.node, b.name)
+
+
+def fexpand(fa, expr, at, depth=14, _stack=()):
+    """Like FA.expand, and fields of self that have one reaching assignment are expanded too."""
+    bound = set()
+    for x in ast.walk(expr):
+        if isinstance(x, ast.comprehension):
+            bound |= {n.id for n in ast.walk(x.target) if isinstance(n, ast.Name)}
+        if isinstance(x, ast.Lambda):
+            bound |= {a.arg for a in x.args.args + x.args.kwonlyargs + x.args.posonlyargs}
+
+    def sub(name):
+        if depth <= 0:
+            return None
+        d = single_def(fa, name, at)
+        if d is None:
+            # several assignments of one and the same object (`x = obj` on both branches)
+            d = origin(fa, ast.parse(name, mode="eval").body, at)
+        if d is None or (d.node, d.name) in _stack:
+            return None
+        return fexpand(fa, d.value, d.node, depth - 1, _stack + ((d.node, d.name),))
+
+    class T(ast.NodeTransformer):
+        def visit_Name(self, n):
+            if isinstance(n.ctx, ast.Load) and n.id not in bound:
+                r = sub(n.id)
+                if r is not None:
+                    return r
+            return n
+
+        def visit_Attribute(self, n):
+            if isinstance(n.ctx, ast.Load):
+                nm = _ref_name(n)
+                if nm is not None:
+                    r = sub(nm)
+                    if r is not None:
+                        return r
+            self.generic_visit(n)
+            return n
+
+        def visit_Call(self, n):
+            self.generic_visit(n)
+            return strip_cast(n)
+
+    return T().visit(copy.deepcopy(expr))
+
+
+def ftext(fa, expr, at=None) -> str:
+    if at is None:
+        ids = fa.nodes(expr)
+        if not ids:
+            raise AnalysisError("%s: expression `%s` has no (reachable) CFG node" % (fa.qual, A.short(expr, 60)))
+        at = ids[0]
+    return A.norm(fexpand(fa, expr, at))
+
+
+_NEG = {ast.IsNot: ast.Is, ast.NotEq: ast.Eq, ast.NotIn: ast.In}
+
+
+def lit_expr(text, pol):
+    """A path-condition literal (text, polarity) as (expression, polarity), with `not`, `is not`, `!=` and
+    `not in` folded into the polarity (a flag that holds a negated test is expanded to its text by
+    FA.conditions but not re-normalised)."""
+    try:
+        e = ast.parse(text, mode="eval").body
+    except SyntaxError:
+        return None, pol
+    while True:
+        if isinstance(e, ast.UnaryOp) and isinstance(e.op, ast.Not):
+            e, pol = e.operand, not pol
+            continue
+        if isinstance(e, ast.Compare) and len(e.ops) == 1 and type(e.ops[0]) in _NEG:
+            e = ast.Compare(left=e.left, ops=[_NEG[type(e.ops[0])]()], comparators=e.comparators)
+            pol = not pol
+            continue
+        if isinstance(e, ast.Call) and isinstance(e.func, ast.Name) and e.func.id == "bool" and len(e.args) == 1 and not e.keywords:
+            e = e.args[0]
+            continue
+        return e, pol
+
+
+class _CtxSimplify(ast.NodeTransformer):
+    """Reads of an InvocationContext through the pure updaters: X.update_recursive(k, v).recursive.f is v
+    when k == f and X.recursive.f otherwise; update_local leaves .recursive alone (and vice versa)."""
+
+    def visit_Attribute(self, n):
+        self.generic_visit(n)
+        v = n.value
+        if isinstance(v, ast.Call) and isinstance(v.func, ast.Attribute):
+            if (v.func.attr, n.attr) in (("update_local", "recursive"), ("update_recursive", "local")):
+                return self.visit(ast.Attribute(value=v.func.value, attr=n.attr, ctx=ast.Load()))
+        if isinstance(v, ast.Attribute) and v.attr == "recursive" and isinstance(v.value, ast.Call) and isinstance(v.value.func, ast.Attribute) \
+                and v.value.func.attr == "update_recursive":
+            k = A.const_str(A.arg_or_kw(v.value, 0, "key"))
+            val = A.arg_or_kw(v.value, 1, "value")
+            if k is not None and val is not None:
+                if k == n.attr:
+                    return val
+                return self.visit(ast.Attribute(value=ast.Attribute(value=v.value.func.value, attr="recursive", ctx=ast.Load()), attr=n.attr, ctx=ast.Load()))
+        return n
+
+
+def ctx_simplify(e):
+    return ast.fix_missing_locations(_CtxSimplify().visit(copy.deepcopy(e)))
+
+
+def ctx_text(fa, expr, at=None) -> str:
+    if at is None:
+        at = fa.nodes(expr)[0]
+    e = fa.expand(expr, at)
+
+    class C(ast.NodeTransformer):
+        def visit_Call(self, n):
+            self.generic_visit(n)
+            return strip_cast(n)
+
+    return A.norm(ctx_simplify(C().visit(e)))
+
+
+def canon_conj(conj):
+    """A conjunct of FA.conditions with every literal folded (lit_expr) and context reads simplified."""
+    out = set()
+    for (t, p) in conj:
+        e, p2 = lit_expr(t, p)
+        out.add((A.norm(ctx_simplify(e)), p2) if e is not None else (t, p))
+    return frozenset(out)
+
+
+def conds(fa, target):
+    c = fa.conditions(target)
+    if c is None:
+        raise AnalysisError("%s: too many paths to `%s`" % (fa.qual, A.short(target, 50) if not isinstance(target, int) else target))
+    return {canon_conj(x) for x in c}
+
+
+def relative(cs, base):
+    """Conjuncts `cs` without the literals every conjunct of `base` contains (the guards that everything
+    after them has passed)."""
+    common = None
+    for b in base:
+        common = set(b) if common is None else common & set(b)
+    common = common or set()
+    return {frozenset(c - common) for c in cs}
+
+
+_SAFE_NODES = (ast.Expression, ast.Name, ast.Load, ast.Constant, ast.Compare, ast.Call, ast.Dict, ast.UnaryOp, ast.Not, ast.BoolOp, ast.And, ast.Or,
+               ast.Is, ast.IsNot, ast.Eq, ast.NotEq, ast.Lt, ast.LtE, ast.Gt, ast.GtE, ast.Tuple, ast.List, ast.USub)
+
+
+def holds_iff_nonempty(cs, aliases):
+    """Do the conjuncts `cs` (relative path conditions) hold exactly when the mapping spelled by one of
+    `aliases` is non-empty?  Decided by evaluating the literals for None, {}, one entry, two entries; a
+    literal about anything else makes the answer False."""
+    conjs = []
+    for conj in cs:
+        lits = []
+        for (t, p) in conj:
+            try:
+                e = ast.parse(t, mode="eval").body
+            except SyntaxError:
+                return False
+
+            class R(ast.NodeTransformer):
+                def visit(self, n):
+                    if isinstance(n, ast.NamedExpr):
+                        n = n.value  # the test reads the value that is being named
+                    if isinstance(n, ast.expr) and A.norm(n) in aliases:
+                        return ast.Name(id="CA", ctx=ast.Load())
+                    return ast.NodeTransformer.visit(self, n)
+
+            e = ast.fix_missing_locations(ast.Expression(body=R().visit(e)))
+            for x in ast.walk(e):
+                if not isinstance(x, _SAFE_NODES):
+                    return False
+                if isinstance(x, ast.Name) and x.id not in ("CA", "len", "bool"):
+                    return False
+                if isinstance(x, ast.Call) and not (isinstance(x.func, ast.Name) and x.func.id in ("len", "bool") and not x.keywords):
+                    return False
+            lits.append((compile(e, "<literal>", "eval"), p))
+        conjs.append(lits)
+
+    def holds(v):
+        for lits in conjs:
+            ok = True
+            for (code, p) in lits:
+                try:
+                    r = bool(eval(code, {"__builtins__": {}}, {"CA": v, "len": len, "bool": bool}))
+                except Exception:
+                    ok = False
+                    break
+                if r != p:
+                    ok = False
+                    break
+            if ok:
+                return True
+        return False
+
+    return not holds(None) and not holds({}) and holds({"a": 1}) and holds({"a": 1, "b": 2})
+
+
+def is_copy_of(e):
+    """`R.copy()`, `dict(R)`, `{**R}`, `copy.copy(R)`, `copy.deepcopy(R)` -> R; else None."""
+    e = strip_cast(e)
+    if isinstance(e, ast.Call):
+        n = A.call_attr(e)
+        if n == "copy" and isinstance(e.func, ast.Attribute) and not e.args and not e.keywords and A.dotted(e.func.value) != "copy":
+            return e.func.value
+        if n in ("dict", "copy", "deepcopy") and len(e.args) == 1 and not e.keywords:
+            return e.args[0]
+        if n == "dict" and not e.args and len(e.keywords) == 1 and e.keywords[0].arg is None:
+            return e.keywords[0].value
+    if isinstance(e, ast.Dict) and len(e.keys) == 1 and e.keys[0] is None:
+        return e.values[0]
+    return None
+
+
+class FlatInit:
+    """FunctionReferenceWithArguments.__init__ with its private helpers flattened in, and the objects the
+    key is made of: `ek` (the definition creating what self.effective_kwargs finally holds), `hk` (the
+    definition creating the argument of compute_hash), `hash_call`, `hash_def`."""
+
+    def __init__(self, ck):
+        self.fa = fa = flat_method(ck, FRA + ".__init__")
+        self.exit = fa.cfg.exit
+        hd = fa.df.reaching(self.exit, "self.arg_hash")
+        if not hd:
+            raise AnalysisError("%s: no assignment of self.arg_hash reaches the end of the constructor" % fa.qual)
+        self.hash_defs = hd
+        self.hash_def = hd[0]
+        self.hash_call = None
+        self.hk = None
+        if len(hd) == 1 and hd[0].kind == "assign":
+            v, at = strip_cast(hd[0].value), hd[0].node
+            if _ref_name(v) is not None:
+                o = origin(fa, v, at)
+                if o is not None:
+                    v, at = strip_cast(o.value), o.node
+            if isinstance(v, ast.Call) and A.call_attr(v) == "compute_hash":
+                self.hash_call = v
+                self.hash_at = at
+                a = A.arg_or_kw(v, 0, "effective_kwargs")
+                if a is not None:
+                    self.hk = origin(fa, a, at)
+        self.ek = self.final("effective_kwargs")
+
+    def final(self, field):
+        """origin of what self.<field> holds when the constructor returns"""
+        ds = self.fa.df.reaching(self.exit, "self." + field)
+        if len(ds) != 1 or ds[0].kind != "assign" or ds[0].value is None:
+            return None
+        o = origin(self.fa, ds[0].value, ds[0].node)
+        return o if o is not None else ds[0]
+
+    def reads_final(self, expr, at, field):
+        """does `expr` at `at` denote what self.<field> holds when the constructor returns (the field read
+        after its last assignment, or a local the field was assigned from)?"""
+        fa = self.fa
+        fin = fa.df.reaching(self.exit, "self." + field)
+        if not fin:
+            return False
+        e = strip_cast(expr)
+        seen = set()
+        while True:
+            nm = _ref_name(e)
+            if nm is None:
+                return False
+            if nm == "self." + field:
+                return {(d.node, d.name) for d in fa.df.reaching(at, nm)} == {(d.node, d.name) for d in fin}
+            d = single_def(fa, nm, at)
+            if d is None:
+                break
+            # a local the field was assigned from
+            if any(f.kind == "assign" and f.value is not None and _ref_name(strip_cast(f.value)) == nm and same_def(single_def(fa, nm, f.node), d) for f in fin) and len(fin) == 1:
+                return True
+            if (d.node, d.name) in seen:
+                return False
+            seen.add((d.node, d.name))
+            e, at = strip_cast(d.value), d.node
+        return False
+
+    def aliases_of(self, d):
+        """all names / self fields (text) that are plain aliases of definition d somewhere"""
+        fa = self.fa
+        out = {d.name}
+        for s in fa.stmts(ast.Assign):
+            for t in s.targets:
+                nm = _ref_name(t)
+                if nm and fa.nodes(s) and same_def(origin(fa, s.value, fa.nodes(s)[0]), d):
+                    out.add(nm)
+        return out
+
+    def denotes(self, expr, at, d):
+        return same_def(origin(self.fa, expr, at), d)
 
 
 def sibling_reference_sites(ck, rule):
@@ -24,9 +439,15 @@ def sibling_reference_sites(ck, rule):
         ctors = [c for c in fa.calls("FunctionReferenceWithArguments")] + [c for c in fa.calls("with_args")]
         for c in ctors:
             # exempt by def-use: the value is only used for .effective_kwargs
-            st = fa.stmt_of(c)
             par = fa.pm.get(c)
             only_kwargs = isinstance(par, ast.Attribute) and par.attr == "effective_kwargs"
+            if not only_kwargs and isinstance(par, ast.Assign) and par.value is c and len(par.targets) == 1 and isinstance(par.targets[0], ast.Name):
+                # bound to a local of which only key-free parts are read (it is never passed on, no hash is taken from it)
+                nm = par.targets[0].id
+                uses = [n for n in A.walk_body(fa.node) if isinstance(n, ast.Name) and n.id == nm and isinstance(n.ctx, ast.Load)]
+                defs = [n for n in A.walk_body(fa.node) if isinstance(n, ast.Name) and n.id == nm and not isinstance(n.ctx, ast.Load)]
+                only_kwargs = bool(uses) and len(defs) == 1 and any(isinstance(fa.pm.get(u), ast.Attribute) and fa.pm.get(u).attr == "effective_kwargs" for u in uses) \
+                    and all(isinstance(fa.pm.get(u), ast.Attribute) and fa.pm.get(u).attr in ("effective_kwargs", "args", "kwargs", "fn_reference") for u in uses)
             if only_kwargs:
                 ck.note(rule, fa.key(c, "exempt"), "reference used only for effective_kwargs (no key is derived from it)")
                 continue
@@ -34,11 +455,70 @@ def sibling_reference_sites(ck, rule):
             ca = A.kwarg(c, "context_args") or A.kwarg(c, RESERVED)
             if ca is None and A.call_attr(c) == "FunctionReferenceWithArguments" and len(c.args) > 3:
                 ca = c.args[3]
-            ok = ca is not None and A.norm(ca) == "self.context.recursive.context_args"
+            ok = False
+            if ca is not None:
+                ids = fa.nodes(c)
+                txt = fa.xnorm(ca, ids[0]) if ids else A.norm(ca)
+                ok = txt == "self.context.recursive.context_args"
             ck.ob(rule, fa.key(c, "context-args"), ok, "the reference carries the function's own context args" if ok else
                   "%s builds its call reference without the function's context args: it addresses a different stored entry than call() does" % name,
                   fa.where(c))
     ck.need(n_sites >= 6, "base.py: expected at least 6 keyed reference constructions, found %d" % n_sites)
+
+
+# ------------------------------------------------------------------------------------------------
+def _lit_truth(e, pol, yes, no):
+    """Three-valued reading of a literal against two atom predicates: does (e, pol) establish `yes`
+    (returns True), or is it unrelated (False)?  `not (a and b)` establishes X when falsifying either
+    operand does; `a or b` taken true likewise; `a and b` taken true / `not (a or b)` when one operand does."""
+    if isinstance(e, ast.UnaryOp) and isinstance(e.op, ast.Not):
+        return _lit_truth(e.operand, not pol, yes, no)
+    if isinstance(e, ast.BoolOp):
+        every = (isinstance(e.op, ast.And) and not pol) or (isinstance(e.op, ast.Or) and pol)
+        parts = [_lit_truth(v, pol, yes, no) for v in e.values]
+        return all(parts) if every else any(parts)
+    e2, pol2 = lit_expr(A.norm(e), pol)
+    if e2 is None:
+        return False
+    return yes(A.norm(e2), pol2)
+
+
+def _not_prevented(t, p):
+    return (t == FRAME + ".recursive_context.prevent_further_calls" and not p) or (t == FRAME and not p) or (t == FRAME + " is None" and p)
+
+
+def _prevented(t, p):
+    return t == FRAME + ".recursive_context.prevent_further_calls" and p
+
+
+def _all_unprevented(cs):
+    return bool(cs) and all(any(_lit_truth(lit_expr(t, p)[0], lit_expr(t, p)[1], _not_prevented, None) for (t, p) in conj if lit_expr(t, p)[0] is not None) for conj in cs)
+
+
+def _default_or(fa, e, at, param, default):
+    """is `e` "the parameter if it was given, else the default" (`p or d`, `p if p else d`, `d if p is None else p`, ...)"""
+    x = strip_cast(fa.expand(e, at))
+    if isinstance(x, ast.BoolOp) and isinstance(x.op, ast.Or) and [A.norm(v) for v in x.values] == [param, default]:
+        return True
+    if isinstance(x, ast.IfExp):
+        t, pol = lit_expr(A.norm(x.test), True)
+        if t is None:
+            return False
+        tt = A.norm(t)
+        b, o = A.norm(x.body), A.norm(x.orelse)
+        if (tt == param and pol) or (tt == param + " is None" and not pol):
+            return (b, o) == (param, default)
+        if (tt == param and not pol) or (tt == param + " is None" and pol):
+            return (b, o) == (default, param)
+        return False
+    if isinstance(e, ast.Name):
+        ds = fa.df.reaching(at, e.id)
+        pd = [d for d in ds if d.kind == "param"]
+        ad = [d for d in ds if d.kind == "assign"]
+        if len(pd) == 1 and len(ad) == 1 and len(ds) == 2 and e.id == param and A.norm(ad[0].value) == default:
+            cs = conds(fa, ad[0].node)
+            return cs in ({frozenset({(param + " is None", True)})}, {frozenset({(param, False)})})
+    return False
 
 
 def check(ck):
@@ -54,60 +534,190 @@ def check(ck):
     ck.rule(R4, "the prevent_further_calls raise dominates the dispatch to the runner", 1)
     ck.rule(R5, "sibling agreement: every keyed reference construction in base.py passes self.context.recursive.context_args", 6)
 
-    # ---- R1
-    ce = FA(ck, "reference.FunctionReferenceWithArguments._compute_effective_kwargs_with_context_args")
-    sets = [s for s in ce.stmts(ast.Assign) if any(isinstance(t, ast.Subscript) and A.const_str(t.slice) is not None for t in s.targets)]
-    ok = len(sets) == 1 and A.const_str(sets[0].targets[0].slice) == RESERVED and A.norm(sets[0].value) == "self.context_args"
-    g = ce.enclosing(sets[0], ast.If) if sets else None
-    ok = ok and g is not None and "len(self.context_args) > 0" in A.norm(g.test)
-    ck.ob(R1, ce.key(None, "reserved-key"), ok, "context args enter the hash under %r iff non-empty" % RESERVED if ok else
-          "context args are not added to the hash input under %r exactly when non-empty" % RESERVED, ce.where())
-    cp = [s for s in ce.stmts(ast.Assign) if isinstance(s.value, ast.Call) and A.call_attr(s.value) in ("copy", "dict")
-          and "self.effective_kwargs" in A.norm(s.value)]
-    okc = bool(cp) and ce.returns() and all(A.norm(r.value) == A.norm(cp[0].targets[0]) for r in ce.returns())
-    ck.ob(R1, ce.key(None, "copy"), bool(okc), "the hash input is a copy: effective_kwargs itself stays free of context args" if okc else
-          "the hash input is not a copy of effective_kwargs (context args would leak into the body's parameters)", ce.where())
-    init = FA(ck, "reference.FunctionReferenceWithArguments.__init__")
-    ah = init.one([s for s in init.stmts(ast.Assign) if any(A.dotted(t) == "self.arg_hash" for t in s.targets)], "self.arg_hash assignment")
-    okh = isinstance(ah.value, ast.Call) and A.call_attr(ah.value) == "compute_hash" and [A.norm(a) for a in ah.value.args] == ["self.effective_kwargs_with_context_args"]
+    # ---- R1: decided on the constructor with its private helpers flattened in
+    fl = FlatInit(ck)
+    init = fl.fa
+    HK_Q = FRA + "._compute_effective_kwargs_with_context_args"
+    hk, ek = fl.hk, fl.ek
+    stores = []
+    for s in init.stmts(ast.Assign):
+        for t in s.targets:
+            if isinstance(t, ast.Subscript) and A.const_str(init.expand(t.slice, init.nodes(s)[0]) if init.nodes(s) else t.slice) == RESERVED:
+                stores.append((s, t))
+    ok = hk is not None and len(stores) >= 1
+    where_r = init.where(stores[0][0]) if stores else init.where()
+    if ok:
+        ca_txt = {"self.context_args"}
+        ds = init.df.reaching(fl.exit, "self.context_args")
+        fin = {(d_.node, d_.name) for d_ in ds}
+        raw = set()
+        for d_ in ds:
+            if d_.value is None:
+                continue
+            if len(ds) == 1:
+                ca_txt.add(init.xnorm(d_.value, d_.node))
+                ca_txt.add(A.norm(d_.value))
+            raw |= {x[len("param:"):] for x in init.deps(d_.value, d_.node) if x.startswith("param:") and x != "param:self"}
+        if len(raw) == 1:
+            # the raw argument is empty exactly when its normalised form is
+            ca_txt |= raw
+        base = conds(init, fl.hash_def.node)
+        for (s, t) in stores:
+            at = init.nodes(s)[0]
+            # on the hash input, holding the (normalised) context args
+            ok = ok and fl.denotes(t.value, at, hk)
+            ok = ok and fl.reads_final(s.value, at, "context_args")
+            # before the hash is taken
+            ok = ok and not (set(init.nodes(s)) & init.cfg.reach([fl.hash_at], include_start=False)) and fl.hash_at in init.cfg.reach(init.nodes(s))
+        # exactly when non-empty
+        cs = set()
+        for (s, t) in stores:
+            cs |= relative(conds(init, s), base)
+        ok = ok and holds_iff_nonempty(cs, ca_txt)
+    ck.ob(R1, HK_Q + "::reserved-key", bool(ok), "context args enter the hash under %r iff non-empty" % RESERVED if ok else
+          "context args are not added to the hash input under %r exactly when non-empty" % RESERVED, where_r)
+    src = is_copy_of(hk.value) if hk is not None else None
+    okc = src is not None and ek is not None and not same_def(hk, ek) and fl.denotes(src, hk.node, ek)
+    if okc:
+        # the copy is taken from the finished mapping, and the reserved key never lands in the mapping the body receives
+        ek_names = fl.aliases_of(ek)
+        for s in init.stmts((ast.Assign, ast.AugAssign, ast.Expr)):
+            ids = init.nodes(s)
+            if not ids:
+                continue
+            muts = []
+            if isinstance(s, ast.Assign):
+                muts = [t.value for t in s.targets if isinstance(t, ast.Subscript)]
+            elif isinstance(s, ast.Expr) and isinstance(s.value, ast.Call) and A.call_attr(s.value) in ("update", "setdefault", "pop", "clear", "popitem", "__setitem__"):
+                muts = [A.call_recv(s.value)] if A.call_recv(s.value) is not None else []
+            for m in muts:
+                if _ref_name(m) in ek_names and fl.denotes(m, ids[0], ek) and set(ids) & init.cfg.reach([hk.node], include_start=False):
+                    okc = False
+    ck.ob(R1, HK_Q + "::copy", bool(okc), "the hash input is a copy: effective_kwargs itself stays free of context args" if okc else
+          "the hash input is not a copy of effective_kwargs (context args would leak into the body's parameters)", init.where(hk.stmt) if hk is not None and hk.stmt is not None else init.where())
+    ah = fl.hash_def.stmt
+    okh = fl.hash_call is not None and hk is not None and len(stores) >= 1 and all(fl.denotes(t.value, init.nodes(s)[0], hk) for (s, t) in stores)
     ck.ob(R1, init.key(ah), okh, "arg_hash = hash(effective kwargs + context args)" if okh else
           "arg_hash is not computed from effective_kwargs_with_context_args", init.where(ah))
     rl = FA(ck, "runner_local.memento_run_local")
     body = rl.one(rl.calls("_filter_call"), "_filter_call (function body) call")
+    p_ref = "fn_reference_with_args" if "fn_reference_with_args" in rl.fi.params else (rl.fi.params[1] if len(rl.fi.params) > 1 else "")
     okb = not body.args and len(body.keywords) == 1 and body.keywords[0].arg is None and \
-        A.norm(body.keywords[0].value) == "fn_reference_with_args.effective_kwargs"
+        rl.xnorm(body.keywords[0].value, rl.nodes(body)[0]) == p_ref + ".effective_kwargs" and \
+        all(d.kind == "param" for d in rl.df.reaching(rl.nodes(body)[0], p_ref))
     ck.ob(R1, rl.key(body, "body-args"), okb, "the body receives exactly the effective kwargs (no context args)" if okb else
           "the body is not called with **fn_reference_with_args.effective_kwargs", rl.where(body))
 
     # ---- R2
     rb = FA(ck, "runner_local.memento_run_batch")
-    ups = [c for c in rb.calls("update_recursive") if c.args and A.const_str(c.args[0]) == "context_args"]
-    ok2 = len(ups) == 1
+    prm = rb.fi.params
+    P_CTX = "context" if "context" in prm else prm[0]
+    P_REFS = "fn_reference_with_args" if "fn_reference_with_args" in prm else prm[1]
+    INHERITED = FRAME + ".recursive_context.context_args"
+    UNSET = (P_CTX + ".recursive.context_args is None", True)
+    disps = rb.some([c for c in rb.calls("batch_run")], "runner.batch_run dispatch")
+    dnodes = {id(d): rb.nodes(d) for d in disps}
+    all_dn = [i for d in disps for i in dnodes[id(d)]]
+
+    def upd_key(c):
+        return A.const_str(A.arg_or_kw(c, 0, "key"))
+
+    upcalls = [c for c in rb.calls("update_recursive")]
+    ups = [c for c in upcalls if upd_key(c) == "context_args"]
+    ok2 = len(ups) == 1 and bool(rb.nodes(ups[0]))
+    un = rb.nodes(ups[0]) if ok2 else []
     if ok2:
-        g = rb.enclosing(ups[0], ast.If)
-        ok2 = g is not None and A.norm(g.test) == "context.recursive.context_args is None" and rb.inside(ups[0], g.body[0]) or \
-            (g is not None and A.norm(g.test) == "context.recursive.context_args is None" and any(rb.inside(ups[0], b) for b in g.body))
-        ok2 = ok2 and len(ups[0].args) > 1 and rb.xnorm(ups[0].args[1], rb.nodes(ups[0])[0]) == "CallStack.get().get_calling_frame().recursive_context.context_args"
+        u = ups[0]
+        val = A.arg_or_kw(u, 1, "value")
+        ok2 = val is not None and ctx_text(rb, val, un[0]) == INHERITED and ("param:" + P_CTX) in rb.deps(A.call_recv(u), un[0])
+        cu = conds(rb, un[0])
+        refs = [c for c in upcalls if upd_key(c) in ("correlation_id", "retry_on_remote_call") and rb.nodes(c) and rb.nodes(c)[0] != un[0]]
+        if refs:
+            # inherited together with the caller's other recursive fields, and then exactly when unset
+            cr = conds(rb, rb.nodes(refs[0])[0])
+            ok2 = ok2 and cu == {frozenset(c | {UNSET}) for c in cr}
+        else:
+            okx = bool(cu)
+            for c in cu:
+                okx = okx and UNSET in c and all(l == UNSET or FRAME in l[0] or l[0].isidentifier() for l in c)
+            ok2 = ok2 and okx
     ck.ob(R2, rb.key(ups[0] if ups else None, "inherit-iff-unset"), bool(ok2),
           "the caller's context args are inherited only when the call attached none" if ok2 else
           "context args are not inherited exactly when the call has none of its own (guard or source changed)", rb.where())
     rebuilt = [c for c in rb.calls("FunctionReferenceWithArguments")]
-    ok3 = len(rebuilt) == 1
+    ok3 = len(rebuilt) == 1 and len(ups) == 1 and bool(un) and bool(rb.nodes(rebuilt[0]))
     if ok3:
         c = rebuilt[0]
-        args = [A.norm(a) for a in c.args]
-        comp = rb.pm.get(c)
-        cv = comp.generators[0].target.id if isinstance(comp, ast.ListComp) and len(comp.generators) == 1 and isinstance(comp.generators[0].target, ast.Name) \
-            and not comp.generators[0].ifs and A.norm(comp.generators[0].iter) == "fn_reference_with_args" else None
-        ok3 = cv is not None and args == [cv + ".fn_reference", cv + ".args", cv + ".kwargs", "context.recursive.context_args"]
-        # the rebuilt list is what is dispatched, and it is built after the update
-        ok3 = ok3 and all(rb.cfg.must_pass(rb.nodes_all(ups), i) for i in rb.nodes(c))
-    ck.ob(R2, rb.key(None, "rebuild"), ok3, "references are rebuilt with the inherited context args" if ok3 else
+        at = rb.nodes(c)[0]
+        par = rb.pm.get(c)
+        cv = src = None
+        through = []      # nodes every inheriting path must pass: where the list is rebuilt
+        holders = set()   # (node, name) definitions that hold the rebuilt list
+        if isinstance(par, (ast.ListComp, ast.GeneratorExp)) and par.elt is c and len(par.generators) == 1 and not par.generators[0].ifs \
+                and isinstance(par.generators[0].target, ast.Name):
+            outer = par
+            if isinstance(par, ast.GeneratorExp):
+                pp = rb.pm.get(par)
+                outer = pp if isinstance(pp, ast.Call) and A.call_attr(pp) == "list" and pp.args == [par] else None
+            st = rb.stmt_of(c)
+            if outer is not None and isinstance(st, ast.Assign) and st.value is outer and len(st.targets) == 1 and isinstance(st.targets[0], ast.Name):
+                cv, src = par.generators[0].target.id, par.generators[0].iter
+                through = rb.nodes(st)
+                holders = {(i, st.targets[0].id) for i in rb.nodes(st)}
+        elif isinstance(par, ast.Call) and A.call_attr(par) == "append" and par.args == [c] and isinstance(A.call_recv(par), ast.Name):
+            st = rb.stmt_of(c)
+            loop = rb.enclosing(st, (ast.For, ast.While))
+            if isinstance(loop, ast.For) and isinstance(loop.target, ast.Name) and not loop.orelse and A.sig_stmts(loop.body) == [st] \
+                    and isinstance(st, ast.Expr) and st.value is par:
+                lname = A.call_recv(par).id
+                heads = [n.id for n in rb.cfg.nodes if n.kind == "for" and n.ast is loop]
+                ld = single_def(rb, lname, heads[0]) if heads else None
+                if ld is not None and A.norm(ld.value) in ("[]", "list()"):
+                    cv, src = loop.target.id, loop.iter
+                    through = heads
+                    holders = {(ld.node, lname)}
+                    for s in rb.stmts(ast.Assign):
+                        if len(s.targets) == 1 and isinstance(s.targets[0], ast.Name) and rb.nodes(s) and isinstance(s.value, ast.Name) \
+                                and same_def(origin(rb, s.value, rb.nodes(s)[0]), ld) and set(rb.nodes(s)) & rb.cfg.reach(heads, include_start=False):
+                            holders |= {(i, s.targets[0].id) for i in rb.nodes(s)}
+        ok3 = cv is not None and isinstance(src, ast.Name) and src.id == P_REFS and all(d.kind == "param" for d in rb.df.reaching(through[0], P_REFS))
+        if ok3:
+            a = [A.arg_or_kw(c, i, n) for i, n in enumerate(("fn_reference", "args", "kwargs", "context_args"))]
+            ok3 = all(x is not None for x in a) and [A.norm(x) for x in a[:3]] == [cv + ".fn_reference", cv + ".args", cv + ".kwargs"] \
+                and ctx_text(rb, a[3], at) == INHERITED
+        # built after the update, on every inheriting path, and it is what is dispatched
+        ok3 = ok3 and all(rb.cfg.must_pass(un, i) for i in through)
+        if ok3:
+            after = rb.cfg.reach(un, include_start=False)
+            for d in disps:
+                for dn in dnodes[id(d)]:
+                    if dn not in after:
+                        continue
+                    r = A.arg_or_kw(d, 2, "fn_reference_with_args")
+                    if not isinstance(r, ast.Name):
+                        ok3 = False
+                        continue
+                    hn = {i for (i, nm) in holders if nm == r.id}
+                    ok3 = ok3 and bool(hn) and rb.cfg.always_reaches(un[0], hn, [dn]) and rb.cfg.always_reaches(un[0], through, [dn])
+                    ok3 = ok3 and all((df.node, df.name) in holders or df.kind == "param" or df.node not in after for df in rb.df.reaching(dn, r.id))
+    ck.ob(R2, rb.key(None, "rebuild"), bool(ok3), "references are rebuilt with the inherited context args" if ok3 else
           "after inheriting, the call references are not rebuilt from (fn_reference, args, kwargs, updated context args)", rb.where())
-    disp = rb.one([c for c in rb.calls("batch_run")], "runner.batch_run dispatch")
-    okd = A.norm(A.kwarg(disp, "context")) == "context" and A.norm(A.kwarg(disp, "fn_reference_with_args")) == "fn_reference_with_args"
-    ck.ob(R2, rb.key(disp, "dispatch-args"), okd, "the updated context and references are dispatched" if okd else
-          "the dispatch does not pass the updated context / references", rb.where(disp))
+    after = rb.cfg.reach(un, include_start=False) if un else set()
+    for d in disps:
+        okd = bool(dnodes[id(d)])
+        for dn in dnodes[id(d)]:
+            cx = A.arg_or_kw(d, 0, "context")
+            rf = A.arg_or_kw(d, 2, "fn_reference_with_args")
+            if cx is None or rf is None or not isinstance(strip_cast(cx), ast.Name) or not isinstance(strip_cast(rf), ast.Name):
+                # what is dispatched is the (updated) context and the (rebuilt) list themselves, not something computed from them
+                okd = False
+                continue
+            dp = rb.deps(cx, dn)
+            okd = okd and ("param:" + P_CTX) in dp and ("param:" + P_REFS) in rb.deps(rf, dn)
+            if dn in after:
+                okd = okd and "call:update_recursive" in dp and "const:'context_args'" in dp
+        ck.ob(R2, rb.key(d, "dispatch-args"), okd, "the updated context and references are dispatched" if okd else
+              "the dispatch does not pass the updated context / references", rb.where(d))
     merges = []
     for modname in ("runner_local", "base", "context"):
         for fi in ck.repo.module(modname).all_funcs():
@@ -124,54 +734,108 @@ def check(ck):
     ck.ob(R2, "no-merge", not merges, "context args are never merged" if not merges else
           "caller and callee context args are merged at %s (%s)" % (A.loc(merges[0][0], merges[0][1]), A.short(merges[0][1], 50)),
           A.loc(merges[0][0], merges[0][1]) if merges else "")
-    # RecursiveContext.update replaces the field
+    # RecursiveContext.update replaces the field on a copy, and the copy is what it returns
     ru = FA(ck, "context.RecursiveContext.update")
-    st = [s for s in ru.stmts(ast.Assign) if any(isinstance(t, ast.Subscript) and "__dict__" in A.norm(t.value) for t in s.targets)]
-    oku = len(st) == 1 and A.norm(st[0].targets[0].slice) == "key" and A.norm(st[0].value) == "value" and "copy" in A.norm(ru.node)
+    rp = ru.fi.params
+    oku = False
+    st = [s for s in ru.stmts(ast.Assign) if any(isinstance(t, ast.Subscript) and isinstance(t.value, ast.Attribute) and t.value.attr == "__dict__" for t in s.targets)]
+    if len(st) == 1 and len(st[0].targets) == 1 and len(rp) >= 3 and ru.nodes(st[0]):
+        t = st[0].targets[0]
+        at = ru.nodes(st[0])[0]
+        obj = origin(ru, t.value.value, at)
+        oku = ru.xnorm(t.slice, at) == rp[1] and ru.xnorm(st[0].value, at) == rp[2] and obj is not None and isinstance(strip_cast(obj.value), ast.Call) \
+            and A.root_name(t.value.value) != "self"
+        if oku:
+            mk = strip_cast(obj.value)
+            copied = (A.call_attr(mk) in ("copy", "deepcopy") and "self" in A.names_in(mk)) or \
+                any(A.call_attr(c_) == "update" and A.norm(c_.args[0] if c_.args else None) == "self.__dict__" and ru.nodes(c_)
+                    and same_def(origin(ru, A.call_recv(c_).value, ru.nodes(c_)[0]) if isinstance(A.call_recv(c_), ast.Attribute) else None, obj)
+                    for c_ in ru.calls("update"))
+            rets = ru.returns()
+            oku = copied and bool(rets) and all(r.value is not None and same_def(origin(ru, r.value, ru.nodes(r)[0]), obj) for r in rets if ru.nodes(r))
     ck.ob(R2, ru.key(None, "replace"), oku, "update() replaces the field on a copy" if oku else
           "RecursiveContext.update no longer sets result[key] = value on a copy", ru.where())
 
+    def pure_update(f, changed, kept, idx):
+        """every return is InvocationContext(<self.changed.update(key, value)>, <self.kept>) (in the constructor's order)"""
+        p = f.fi.params
+        rets = [r for r in f.returns() if f.nodes(r)]
+        if len(p) < 3 or not rets:
+            return False
+        for r in rets:
+            e = strip_cast(f.expand(r.value, f.nodes(r)[0])) if r.value is not None else None
+            if not (isinstance(e, ast.Call) and A.norm(e.func) in ("InvocationContext", "type(self)", "self.__class__")):
+                return False
+            a0, a1 = A.arg_or_kw(e, 0, "recursive"), A.arg_or_kw(e, 1, "local")
+            got = (A.norm(a0), A.norm(a1))
+            upd = "self.%s.update(%s, %s)" % (changed, p[1], p[2])
+            want = (upd, "self." + kept) if idx == 0 else ("self." + kept, upd)
+            if got != want:
+                return False
+        return True
+
     ic_r = FA(ck, "context.InvocationContext.update_recursive")
     ic_l = FA(ck, "context.InvocationContext.update_local")
-    okr = any(A.norm(r.value) == "InvocationContext(self.recursive.update(key, value), self.local)" for r in ic_r.returns())
-    okl = any(A.norm(r.value) == "InvocationContext(self.recursive, self.local.update(key, value))" for r in ic_l.returns())
+    okr = pure_update(ic_r, "recursive", "local", 0)
+    okl = pure_update(ic_l, "local", "recursive", 1)
     ck.ob(R2, ic_r.key(None, "pure"), okr and okl, "context updates build a new context and touch only their own scope" if okr and okl else
           "update_recursive / update_local no longer return a new context that changes only their own scope", ic_r.where())
     # ---- R3
     sf = rl.one(rl.calls("StackFrame"), "StackFrame(...) construction")
-    okf = len(sf.args) >= 3 and A.norm(sf.args[2]) == "context.recursive" and A.norm(sf.args[0]) == "fn_reference_with_args"
+    lp = rl.fi.params
+    l_ctx = "context" if "context" in lp else lp[0]
+    a0, a2 = A.arg_or_kw(sf, 0, "fn_reference_with_args"), A.arg_or_kw(sf, 2, "recursive_context")
+    okf = a0 is not None and a2 is not None and ctx_text(rl, a2, rl.nodes(sf)[0]) == l_ctx + ".recursive" and rl.xnorm(a0, rl.nodes(sf)[0]) == p_ref
     ck.ob(R3, rl.key(sf, "frame-context"), okf, "the frame carries the (updated) recursive context" if okf else
           "the stack frame is not built from context.recursive of the context the runner received", rl.where(sf))
     br = FA(ck, "runner_local.LocalRunnerBackend.batch_run")
+    b_ctx = "context" if "context" in br.fi.params else br.fi.params[1]
     for c in br.calls("memento_run_local"):
-        okc = A.norm(A.kwarg(c, "context")) == "context"
+        cx = A.arg_or_kw(c, 0, "context")
+        okc = cx is not None and bool(br.nodes(c)) and ("param:" + b_ctx) in br.deps(cx, br.nodes(c)[0]) and \
+            isinstance(strip_cast(cx), (ast.Name, ast.Attribute))
         ck.ob(R3, br.key(c, "context-forwarded"), okc, "batch_run forwards the context it received" if okc else
               "batch_run does not forward its context to memento_run_local", br.where(c))
     for name, field in (("with_context_args", "context_args"), ("with_prevent_further_calls", "prevent_further_calls")):
         f = FA(ck, "base.MementoFunctionBase." + name)
-        up = [c for c in f.calls("update_recursive") if c.args and A.const_str(c.args[0]) == field]
-        cl = [c for c in f.calls("clone_with")]
-        okw = len(up) == 1 and len(cl) == 1 and A.kwarg(cl[0], "context") is not None and "call:update_recursive" in f.deps(A.kwarg(cl[0], "context")) \
-            and len(up[0].args) > 1 and A.norm(up[0].args[1]) in f.fi.params
+        cl = [c for c in f.calls("clone_with") if f.nodes(c)]
+        okw = len(cl) == 1 and A.kwarg(cl[0], "context") is not None
+        if okw:
+            e = strip_cast(f.expand(A.kwarg(cl[0], "context"), f.nodes(cl[0])[0]))
+            if isinstance(e, ast.Call) and A.norm(e.func) == "InvocationContext" and A.norm(A.arg_or_kw(e, 1, "local")) == "self.context.local":
+                # update_recursive written out: InvocationContext(self.context.recursive.update(k, v), self.context.local)
+                r0 = A.arg_or_kw(e, 0, "recursive")
+                if isinstance(r0, ast.Call) and A.call_attr(r0) == "update" and A.norm(A.call_recv(r0)) == "self.context.recursive":
+                    e = ast.Call(func=ast.Attribute(value=ast.parse("self.context", mode="eval").body, attr="update_recursive", ctx=ast.Load()),
+                                 args=list(r0.args), keywords=list(r0.keywords))
+            okw = isinstance(e, ast.Call) and A.call_attr(e) == "update_recursive" and A.norm(A.call_recv(e)) == "self.context" \
+                and A.const_str(A.arg_or_kw(e, 0, "key")) == field and A.norm(strip_cast(A.arg_or_kw(e, 1, "value"))) in f.fi.params[1:] \
+                and len([c for c in f.calls("update_recursive") if A.const_str(A.arg_or_kw(c, 0, "key")) == field]) <= 1
+            # and the clone is what the modifier returns
+            okw = okw and any(r.value is not None and "call:clone_with" in f.deps(r.value) for r in f.returns() if f.nodes(r))
         ck.ob(R3, f.key(None, "clone-with-updated-context"), okw, "%s clones with the updated context" % name if okw else
               "%s does not clone the function with context.update_recursive(%r, <argument>)" % (name, field), f.where())
     cw = FA(ck, "memento.MementoFunction.clone_with")
     ctor = cw.one(cw.calls("MementoFunction"), "MementoFunction(...) in clone_with")
-    okk = A.norm(A.kwarg(ctor, "context")) == "context or self.context"
+    kc = A.kwarg(ctor, "context")
+    okk = kc is not None and "context" in cw.fi.params and _default_or(cw, kc, cw.nodes(ctor)[0], "context", "self.context")
     ck.ob(R3, cw.key(ctor, "context-param"), okk, "clone_with passes the given context to the clone" if okk else
           "clone_with does not pass `context or self.context` to the clone", cw.where(ctor))
 
-    # ---- R4
-    raises = [r for r in rb.stmts(ast.Raise) if isinstance(r.exc, ast.Call) and A.call_attr(r.exc) == "RuntimeError"]
-    ok4 = False
-    for r in raises:
-        g = rb.enclosing(r, ast.If)
-        if g is not None and "CallStack.get().get_calling_frame().recursive_context.prevent_further_calls" in rb.xnorm(g.test, rb.nodes(g.test)[0]):
-            tn = [n.id for n in rb.cfg.nodes if n.kind == "test" and n.ast is g.test]
-            # on the true edge the dispatch is unreachable; and the test dominates the dispatch
-            dn = rb.nodes(disp)
-            live = rb.cfg.reach(tn, edge_ok=lambda s, d, l, tn=tn: not (s in tn and l == "F"), include_start=False)
-            ok4 = all(rb.cfg.must_pass(tn, i) for i in dn) and not (set(dn) & live)
+    # ---- R4: no path on which the calling frame prevents further calls reaches the dispatch (or returns normally),
+    # and such a path raises RuntimeError
+    ok4 = all(_all_unprevented(conds(rb, dn)) for dn in all_dn) and bool(all_dn)
+    if ok4:
+        ex = rb.conditions(rb.cfg.exit)
+        ok4 = ex is None or _all_unprevented({canon_conj(c) for c in ex})
+    if ok4:
+        raises = [r for r in rb.stmts(ast.Raise) if r.exc is not None and rb.nodes(r) and
+                  A.norm(r.exc.func if isinstance(r.exc, ast.Call) else r.exc) == "RuntimeError"]
+        ok4 = False
+        for r in raises:
+            cs = conds(rb, rb.nodes(r)[0])
+            if cs and all(any(_lit_truth(lit_expr(t, p)[0], lit_expr(t, p)[1], _prevented, None) for (t, p) in conj if lit_expr(t, p)[0] is not None) for conj in cs):
+                ok4 = True
     ck.ob(R4, rb.key(None, "prevent-dominates-dispatch"), ok4, "a prevented call raises before anything is dispatched" if ok4 else
           "the prevent_further_calls check does not dominate the dispatch to the runner", rb.where())
 
